@@ -545,11 +545,27 @@ func histRunner(prop, runFn string, withDamage bool, nquick, nthorough int, mk f
 				gens = append(gens, scriptedGen(s))
 			}
 		}
+		if withDamage || prop == "C02" {
+			// both stores: the same scenarios once more on the library's FileSystem store
+			fsv := append([]scripted(nil), corpus...)
+			if withDamage {
+				fsv = append(fsv, damageCorpus()...)
+			}
+			for _, s := range fsv {
+				s.label += " [FileSystem]"
+				s.opts.fsStore = true
+				gens = append(gens, scriptedGen(s))
+			}
+		}
 		n := nquick
 		if tier == "thorough" {
 			n = nthorough
 		}
 		for i := 0; i < n; i++ {
+			if (withDamage || prop == "C02") && i%3 == 2 {
+				gens = append(gens, randomGen(func(r *rng, i int) seqOpts { o := mk(r, i); o.fsStore = true; return o }))
+				continue
+			}
 			gens = append(gens, randomGen(mk))
 		}
 		return runGen(prop, "HistChecks", runFn, seed, len(gens), func(i int, r *rng, stats map[string]int) (string, bool, map[string]any) {
